@@ -29,9 +29,18 @@ pub(crate) fn decode_packet(mut src: Bytes, first_byte: u8) -> Result<Packet, De
         packet_type::UNSUBACK => {
             decode_ack(src, |packet_id| Packet::UnsubscribeAck { packet_id })
         }
-        packet_type::PINGREQ => Ok(Packet::PingRequest),
-        packet_type::PINGRESP => Ok(Packet::PingResponse),
-        packet_type::DISCONNECT => Ok(Packet::Disconnect),
+        packet_type::PINGREQ => {
+            ensure!(!src.has_remaining(), DecodeError::InvalidLength);
+            Ok(Packet::PingRequest)
+        }
+        packet_type::PINGRESP => {
+            ensure!(!src.has_remaining(), DecodeError::InvalidLength);
+            Ok(Packet::PingResponse)
+        }
+        packet_type::DISCONNECT => {
+            ensure!(!src.has_remaining(), DecodeError::InvalidLength);
+            Ok(Packet::Disconnect)
+        }
         _ => Err(DecodeError::UnsupportedPacketType),
     }
 }
@@ -86,6 +95,7 @@ fn decode_connect_packet(src: &mut Bytes) -> Result<Packet, DecodeError> {
     } else {
         None
     };
+    ensure!(!src.has_remaining(), DecodeError::InvalidLength); // no data should be left in src
     Ok(Connect {
         clean_session: flags.contains(ConnectFlags::CLEAN_START),
         keep_alive,
@@ -103,6 +113,7 @@ fn decode_connect_ack_packet(src: &mut Bytes) -> Result<Packet, DecodeError> {
         ConnectAckFlags::from_bits(src.get_u8()).ok_or(DecodeError::ConnAckReservedFlagSet)?;
 
     let return_code = src.get_u8().try_into()?;
+    ensure!(!src.has_remaining(), DecodeError::InvalidLength); // no data should be left in src
     Ok(Packet::ConnectAck(ConnectAck {
         return_code,
         session_present: flags.contains(ConnectAckFlags::SESSION_PRESENT),
